@@ -555,7 +555,16 @@ namespace Pistache::Http::Experimental
             else
             {
                 totalBytes += bytes;
-                connection->handleResponsePacket(buffer, bytes);
+                if (!connection->handleResponsePacket(buffer, bytes))
+                {
+                    // as for a connection closed by the server: give it up first, then fail
+                    // the request in flight (which hands over to the next queued request)
+                    const std::string error = connection->responseError();
+                    connections.erase(connection->fd());
+                    connection->close();
+                    connection->handleError(error.c_str());
+                    break;
+                }
             }
         }
     }
@@ -670,42 +679,52 @@ namespace Pistache::Http::Experimental
         return fd_;
     }
 
-    void Connection::handleResponsePacket(const char* buffer, size_t totalBytes)
+    bool Connection::handleResponsePacket(const char* buffer, size_t totalBytes)
     {
+        // Bytes that no request is waiting for (a 408 the server sends before it closes an idle
+        // connection, an interim response, garbage) are not the beginning of the response to
+        // the next request, and after a response that could not be parsed nothing tells where
+        // the next one begins: the connection is of no use any more.
+        if (!requestEntry)
+        {
+            parser.reset();
+            responseError_ = "Unsolicited data";
+            return false;
+        }
+
         try
         {
             const bool result = parser.feed(buffer, totalBytes);
             if (!result)
             {
-                handleError("Client: Too long packet");
-                return;
+                responseError_ = "Client: Too long packet";
+                return false;
             }
             if (parser.parse() == Private::State::Done)
             {
-                if (requestEntry)
+                if (requestEntry->timer)
                 {
-                    if (requestEntry->timer)
-                    {
-                        requestEntry->timer->disarm();
-                        timerPool_.releaseTimer(requestEntry->timer);
-                    }
-
-                    requestEntry->resolve(std::move(parser.response));
-                    parser.reset();
-
-                    auto onDone = requestEntry->onDone;
-
-                    requestEntry.reset(nullptr);
-
-                    if (onDone)
-                        onDone();
+                    requestEntry->timer->disarm();
+                    timerPool_.releaseTimer(requestEntry->timer);
                 }
+
+                requestEntry->resolve(std::move(parser.response));
+                parser.reset();
+
+                auto onDone = requestEntry->onDone;
+
+                requestEntry.reset(nullptr);
+
+                if (onDone)
+                    onDone();
             }
         }
         catch (const std::exception& ex)
         {
-            handleError(ex.what());
+            responseError_ = ex.what();
+            return false;
         }
+        return true;
     }
 
     void Connection::handleError(const char* error)
